@@ -354,7 +354,7 @@ class ProgStream(Stream):
     def line_obs(self, case, obs):
         if obs.get("tree") is None:
             return None
-        evs = [["get", g["root"], g["tmpl"], g["pos"], bool(g["exc"])] for g in obs["gets"] if g["exc"] is not None]
+        evs = [["get", g["root"], g["tmpl"], g["pos"], bool(g["exc"])] for g in obs["gets"] if g["exc"] is not None and not g.get("dynroot")]
         evs += [["filter", f[0]] for f in obs["filters"]] + [["tag", t[0]] for t in obs["tags"]]
         return ["c19analyze", case.get("name", ""), obs["tree"], evs]
 
